@@ -282,20 +282,22 @@ class KernelRig:
         self.dfd = kernel.prog_load(r.code_d) if hasattr(r, "code_d") else None
         self.reg = None
 
-    def register(self, on):
-        if self.reg == on:
-            return
+    def register(self, on, slot=None):
+        """the group's program at `slot` of the program array (default: the rig's group), nowhere else"""
         r = self.r
-        if on:
-            kernel.map_update(r.pa_fd, struct.pack("<I", r.g), struct.pack("<I", self.gfd))
-        else:
-            _map_delete(r.pa_fd, struct.pack("<I", r.g))
-        self.reg = on
+        want = (r.g if slot is None else slot) if on else None
+        if self.reg == want:
+            return
+        if self.reg is not None:
+            _map_delete(r.pa_fd, struct.pack("<I", self.reg))
+        if want is not None:
+            kernel.map_update(r.pa_fd, struct.pack("<I", want), struct.pack("<I", self.gfd))
+        self.reg = want
 
-    def deliver(self, counters, props, frame, registered):
+    def deliver(self, counters, props, frame, registered, slot=None):
         """one delivery through the dispatcher: -> (retval, frame out, counters after, props after)"""
         r = self.r
-        self.register(registered)
+        self.register(registered, slot)
         kernel.map_update(r.cmap_fd, bytes(4), counters)
         kernel.map_update(r.props_fd, bytes(4), props)
         rv, out = kernel.test_run(self.dfd, frame)
@@ -395,24 +397,26 @@ def foreign_frames(r, rng=None, n_random=6):
     return out
 
 
-def make_setup(r, K, cbs, his=(), foreign=(), orc=None):
+def make_setup(r, K, cbs, his=(), foreign=(), orc=None, groups=(), gcbs=()):
     extra = {} if orc is None else dict(orc=list(orc))
     return dict(**extra, programs=[r.disp.insns, r.group.insns], maps=r.disp.tla_maps(),
                 progsReg=prog_table(r, True), progsUnreg=prog_table(r, False), g=r.g, cmap=r.cmap,
                 pmap=r.props_no, countersOff=r.counters_off, countersSize=r.maps[r.cmap - 1]["vs"],
                 sterile=list(r.sterile), ref=list(r.ref), terms=r.tla_terms, props0=list(r.props0),
                 wkcOff=r.wkc_off, cbs=list(cbs), K=K, variants=VARIANTS, his=list(his),
+                progmap=r.pmapno, groups=list(groups), gcbs=list(gcbs) if groups else [],
                 foreign=[dict(pkt=list(p), cb=cb, reg=reg) for p, cb, reg in foreign])
 
 
-def run_table(ctx, r, K, cbs, his=(), foreign=(), workers=6, timeout=1500, orc=None):
-    """-> (entries {(cb, ix, v, hi): outcome}, foreign verdicts [outcome], TLC result)"""
+def run_table(ctx, r, K, cbs, his=(), foreign=(), workers=6, timeout=1500, orc=None, groups=(), gcbs=()):
+    """-> (entries {(cb, ix, v, hi): outcome}, foreign verdicts [outcome], TLC result); the comparisons with
+    other slots of the program table are left in res.groups = {(cb, ix, v): [base, groups]}"""
     import json
     from . import tlc as TL
     wd = ctx.workdir("C22tab")
     path = os.path.join(wd, "setup.json")
     with open(path, "w") as f:
-        json.dump(make_setup(r, K, cbs, his, foreign, orc), f)
+        json.dump(make_setup(r, K, cbs, his, foreign, orc, groups, gcbs), f)
     res = TL.run(wd, "DispatcherTable", "DispatcherTable.cfg", workers=workers, timeout=timeout,
                  deadlock=False, env={"TRACE_FILE": path})
     if res.error or not res.finished:
@@ -426,6 +430,11 @@ def run_table(ctx, r, K, cbs, his=(), foreign=(), workers=6, timeout=1500, orc=N
         fv[i] = o
     if len(fv) != len(foreign):
         raise TL.MachineryError(f"{len(fv)} foreign verdicts for {len(foreign)} frames")
+    res.groups = {(cb, ix, v): o for cb, ix, v, o in TL.printed_records(res, "G")}
+    want = len({(cb, 0 if d == 2 * K + 1 else (cb - d) % 256, v) for cb in (gcbs if groups else ())
+                for d in range(2 * K + 2) for v in range(1, len(VARIANTS) + 1)})
+    if len(res.groups) != want:
+        raise TL.MachineryError(f"{len(res.groups)} group comparisons, expected {want}")
     return entries, [fv[i + 1] for i in range(len(foreign))], res
 
 
@@ -486,6 +495,27 @@ def kernel_check_entries(r, entries, foreign, fverdicts):
                 why.append("maps differ")
             if why:
                 bad.append((("foreign", bytes(pkt).hex()), why))
+    finally:
+        kr.register(False)
+        kr.close()
+    return n, bad
+
+
+def kernel_check_groups(r, groups):
+    """the deliveries for groups registered at other slots, through the real kernel"""
+    kr = KernelRig(r)
+    n, bad = 0, []
+    try:
+        for (cb, ix, v), rec in sorted(groups.items()):
+            var = VARIANTS[v - 1]
+            for gj in rec["groups"]:
+                o = gj["out"]
+                rv, out, ctrs, props = kr.deliver(bytes(o["ctrs0"]), bytes(o["props0"]), bytes(o["pktin"]),
+                                                  var["reg"], slot=gj["h"])
+                n += 1
+                if {"ABORTED": 0, "DROP": 1, "PASS": 2, "TX": 3}.get(o["act"]) != rv or bytes(o["pkt"]) != out \
+                        or bytes(o["ctrs"]) != ctrs or bytes(o["props"]) != props:
+                    bad.append(((gj["h"], cb, ix, v), f"machine {o['act']} kernel {rv}"))
     finally:
         kr.register(False)
         kr.close()
